@@ -126,23 +126,42 @@ func c18Op(cl inprocgrpc.Cloner, op, msg string, salt int) (res string) {
 	return "ok"
 }
 
+// directBody runs the tasks of a "direct" scenario: task i executes sc.Tasks[i]; with
+// option "seq0" task 0 runs to completion before the others start.
 func (e *Env) directBody() {
-	cls := map[string]inprocgrpc.Cloner{}
-	for _, a := range c18Adapters {
-		cls[a] = c18Cloner(a)
+	var op func(ti, k int, o string) string
+	switch e.sc.Prop {
+	case "C18":
+		cls := map[string]inprocgrpc.Cloner{}
+		for _, a := range c18Adapters {
+			cls[a] = c18Cloner(a)
+		}
+		op = func(ti, k int, o string) string {
+			f := strings.Split(o, ":")
+			return c18Op(cls[f[0]], f[1], f[2], 10*ti+k)
+		}
+	case "C09":
+		op = e.c09Direct()
+	default:
+		panic("no direct body for " + e.sc.Prop)
 	}
 	run := func(ti int) {
 		for k, o := range e.sc.Tasks[ti] {
-			f := strings.Split(o, ":")
-			r := c18Op(cls[f[0]], f[1], f[2], 10*ti+k)
-			e.rec.ev(fmt.Sprintf("t%d", ti), fmt.Sprintf("%d:%s", k, o), r)
+			e.rec.ev(fmt.Sprintf("t%d", ti), fmt.Sprintf("%d:%s", k, o), op(ti, k, o))
 		}
 	}
-	for i := 1; i < len(e.sc.Tasks); i++ {
+	first := 0
+	if strings.Contains(e.sc.Opts, "seq0") {
+		run(0)
+		first = 1
+	}
+	for i := first + 1; i < len(e.sc.Tasks); i++ {
 		i := i
 		e.goTask(fmt.Sprintf("t%d", i), func() { run(i) })
 	}
-	run(0)
+	if first < len(e.sc.Tasks) {
+		run(first)
+	}
 }
 
 // directView lists the events per task (the interleaving of the record itself is not an observation).
